@@ -1,5 +1,6 @@
 """C04 - the second HCM pass counts exactly the steady-state hystereses of the sequence."""
 import numpy as np
+import pandas as pd
 
 from .. import hcm, reach
 from ..ref import periodic as P
@@ -14,10 +15,10 @@ REQUIRED_CLASSES = {t: ["last_is_periodic_reversal", "last_not_periodic_reversal
                         "last_equals_first", "trailing_plateau", "leading_plateau", "first_is_zero", "one_sign",
                         "hcm:_handle_case_a_i", "hcm:_handle_case_a_ii", "hcm:_handle_case_b", "hcm:_handle_case_c_i",
                         "hcm:_handle_case_c_ii", "refine:trailing", "refine:leading", "refine:interior",
-                        "refine:duplicate", "float_loads"]
+                        "refine:duplicate", "float_loads", "input:several_points"]
                     for t in ("quick", "thorough")}
 REQUIRED_MONITORS = ["pass2==periodic_rainflow", "pass2_all_closed", "half_only_in_pass1_and_symmetric",
-                     "refinement:pass1_unchanged", "refinement:pass2_unchanged"]
+                     "refinement:pass1_unchanged", "refinement:pass2_unchanged", "several_points==single_point"]
 RULE = ("seeded load sequences: integer alphabet (-4..4)*delta of length 2..12, random floats, the guideline examples, "
         "and junction classes (last sample a periodic reversal / not / between zero and the first sample / equal to the "
         "first sample, trailing and leading plateaus, first sample 0, one-signed). Each runs through the real detector "
@@ -159,6 +160,30 @@ def run_case(case, ctx):
     ctx.check("half_only_in_pass1_and_symmetric", all(ri == 1 and lo == -hi for lo, hi, ri in halves),
               observed=halves, tags=mech, detail=detail)
     ctx.check("only_two_passes", set(rows) <= {1, 2}, observed=sorted(rows))
+
+    # the same sequence given for several assessment points at once (load_step x node_id series, proportional loads):
+    # every point counts what it counts alone
+    if rng.random() < 0.3:
+        import pylife.stress.rainflow.recorders as RFR
+        from pylife.stress.rainflow.fkm_nonlinear import FKMNonlinearDetector
+        k = int(rng.integers(2, 4))
+        factors = [float(2.0 ** int(e)) for e in rng.integers(-2, 3, k)]
+        ctx.tag("input:several_points")
+        law_m = hcm.make_law(max_load=pd.Series([mx * f for f in factors], index=pd.Index(range(k), name="node_id")))
+        rec = RFR.FKMNonlinearRecorder()
+        det_m = FKMNonlinearDetector(recorder=rec, notch_approximation_law=law_m)
+        ser = hcm.multi_point_series(seq, factors)
+        det_m.process_hcm_first(ser)
+        det_m.process_hcm_second(ser)
+        cm = rec.collective
+        ok, bad = True, None
+        for pnt, f in enumerate(factors):
+            rp = _rows(cm.xs(pnt, level="assessment_point_index"))
+            for ri in (1, 2):
+                exp_rows = sorted((lo * f, hi * f, cl) for lo, hi, cl in rows.get(ri, []))
+                if sorted(rp.get(ri, [])) != exp_rows:
+                    ok, bad = False, {"point": pnt, "factor": f, "pass": ri, "got": sorted(rp.get(ri, [])), "expected": exp_rows}
+        ctx.check("several_points==single_point", ok, observed=bad, tags=mech, detail={"factors": factors})
 
     # refinement by non-reversal samples: what is counted must not change
     ref_seq = _refine(seq, rng, ctx)
